@@ -11,6 +11,9 @@ use crate::util::*;
 use quote::ToTokens;
 use std::path::PathBuf;
 
+#[path = "lifecycle_cmd.rs"]
+mod cmd;
+
 fn toks<T: ToTokens>(t: &T) -> String {
     t.to_token_stream().to_string().replace(' ', "")
 }
@@ -71,6 +74,36 @@ pub fn generate(repo: &PathBuf) -> Result<String, String> {
     ] {
         if !body.contains(&needle) {
             return Err(format!("add_node: expected `{needle}`"));
+        }
+    }
+
+    // ---- port validation: after the three per-range checks against the registry, are the requested ranges checked
+    // against each other (before anything is allocated or installed)?
+    let stmts: Vec<String> = add.block.stmts.iter().map(toks).collect();
+    let disjoint_call = "check_port_ranges_disjoint(&[&options.node_port,&options.metrics_port,&options.rpc_port])?;";
+    let avail: Vec<usize> = stmts
+        .iter()
+        .enumerate()
+        .filter(|(_, t)| t.starts_with("ifletSome(port_option)=&options.") && t.contains("check_port_availability(port_option,&node_registry.nodes)?;"))
+        .map(|(i, _)| i)
+        .collect();
+    let loop_at = stmts.iter().position(|t| t.starts_with(&format!("while{first}<={target}"))).ok_or("add_node: no install loop")?;
+    if avail.len() != 3 || avail.iter().any(|i| *i > loop_at) {
+        return Err("add_node: expected three `if let Some(port_option) = &options.<x>_port { validate; check_port_availability }` in front of the install loop".into());
+    }
+    let ranges_disjoint_checked = match (stmts.iter().position(|t| t == disjoint_call), body.matches("check_port_ranges_disjoint").count()) {
+        (None, 0) => false,
+        (Some(k), 1) if k > *avail.iter().max().unwrap_or(&0) && k < loop_at => true,
+        _ => return Err("add_node: `check_port_ranges_disjoint` is not called once, on the three requested ranges, between the per-range checks and the install loop".into()),
+    };
+    // (first-fit report of the helper: the lowest port shared with an EARLIER range, ranges taken in the order node, metrics, rpc)
+    if ranges_disjoint_checked {
+        let hfile = parse_file(&repo.join("ant-node-manager/src/helpers.rs"))?;
+        let h = toks(&free_fn(&hfile, "check_port_ranges_disjoint")?.block);
+        for needle in ["requested.iter().take(i)", "letfirst_shared=*start.max(other_start);", "iffirst_shared<=*end.min(other_end)"] {
+            if !h.contains(needle) {
+                return Err(format!("check_port_ranges_disjoint: expected `{needle}`"));
+            }
         }
     }
 
@@ -183,7 +216,9 @@ pub fn generate(repo: &PathBuf) -> Result<String, String> {
         _ => return Err("restart_node_service: cannot tell whether the replacement service is recorded before the `?` on its start".into()),
     };
 
-    let mut s = header(&format!("{rel_add}, {rel_node}, {rel_rpc}, {rel_lib}"));
+    let layer = cmd::read(repo)?;
+
+    let mut s = header(&format!("{rel_add}, {rel_node}, {rel_rpc}, {rel_lib}, {}, {}", cmd::REL_CMD, cmd::REL_DAEMON));
     s.push_str("namespace SafeNet.Gen.Lifecycle\n");
     s.push_str(&format!("/-- `add_node`: `current_node_count` is the highest recorded `number` (true) or `nodes.len()` (false); source: `{cur}` -/\ndef numberFromMax : Bool := {}\n", lean_bool(from_max)));
     s.push_str(&format!("/-- `NodeService::on_stop` assigns `pid = None` -/\ndef onStopClearsPid : Bool := {}\n", lean_bool(stop_clears_pid)));
@@ -191,6 +226,8 @@ pub fn generate(repo: &PathBuf) -> Result<String, String> {
     s.push_str(&format!("/-- `restart_node_service`, `retain_peer_id = false`: the replacement service is numbered from the highest recorded `number` (true) or from `nodes.len()` (false); source: `{rcur}` -/\ndef restartNumberFromMax : Bool := {}\n", lean_bool(restart_from_max)));
     s.push_str(&format!("/-- `restart_node_service`, `retain_peer_id = false`: the replacement service is pushed to the registry before the `?` on the result of its first start (true), or only after a successful start (false) -/\ndef restartRecordsFailedStart : Bool := {}\n", lean_bool(records_failed_start)));
     s.push_str(&format!("/-- `ServiceManager::stop`: when `service_control.stop` returns an error the process is looked up again and a service whose process has gone is recorded as stopped (`on_stop`) before the error is returned (true), or the error is returned at once (false) -/\ndef stopFailChecksProcess : Bool := {}\n", lean_bool(stop_fail_checks)));
+    s.push_str(&format!("/-- `add_node` checks the requested node / metrics / RPC port ranges against each other (`check_port_ranges_disjoint`) after checking each against the registry and before the install loop -/\ndef requestedRangesDisjointChecked : Bool := {}\n", lean_bool(ranges_disjoint_checked)));
+    s.push_str(&cmd::emit(&layer));
     s.push_str("end SafeNet.Gen.Lifecycle\n");
     Ok(s)
 }
